@@ -80,6 +80,7 @@ pub fn run(args: &Args) {
             out.flush();
             if let Some(s) = st["sched"].as_array() { verif::install_schedule(s[0].as_u64().unwrap(), s[1].as_f64().unwrap_or(0.5)); }
             verif::set_logging(ttlog || wb, wb);
+            verif::set_qs_sampling(st["qs_every"].as_u64().unwrap_or(0) as usize, st["qs_budget"].as_u64().unwrap_or(0) as usize);
             let _ = verif::take_log();
             let t0 = Instant::now();
             let mut events: Vec<Value> = vec![];
